@@ -43,3 +43,10 @@ Proof. exact read_packet2_segmentation. Qed.
 Theorem c09_read_packet1_segmentation : forall buf cs e, nonempty_chunks cs ->
   snd (read_packet1 {| s_buf := buf; s_chunks := cs; s_end := e |}) = snd (read_packet1 {| s_buf := buf ++ List.concat cs; s_chunks := []; s_end := e |}).
 Proof. exact read_packet1_segmentation. Qed.
+
+(* literals the model repeats from the source are the ones the translator extracts from the current source (gen/Tables.v) *)
+From VGen Require Import Tables.
+From VModel Require Import AuditSM.
+From VProofs Require Import TieProofs.
+Theorem c09_tie_protocol_mismatch : protocol_mismatch_text = str_bytes src_protocol_mismatch_text.
+Proof. exact tie_protocol_mismatch. Qed.
